@@ -124,14 +124,14 @@ type stdioWrite struct {
 	Data   []byte `json:"data"`
 }
 type stdioCase struct {
-	Proto       string       `json:"proto"`
-	Mux         bool         `json:"mux"`
-	EarlyOut    []byte       `json:"early_stdout"` // written by the plugin before the host attaches
-	EarlyErr    []byte       `json:"early_stderr"`
-	Writes      []stdioWrite `json:"writes"`
-	Concurrent  bool         `json:"concurrent"` // the two streams are written by concurrent RPCs
-	PauseMs     int          `json:"pause_ms"`   // pause in the middle of the script (the stream must stay attached)
-	Kind        string       `json:"kind"`
+	Proto      string       `json:"proto"`
+	Mux        bool         `json:"mux"`
+	EarlyOut   []byte       `json:"early_stdout"` // written by the plugin before the host attaches
+	EarlyErr   []byte       `json:"early_stderr"`
+	Writes     []stdioWrite `json:"writes"`
+	Concurrent bool         `json:"concurrent"` // the two streams are written by concurrent RPCs
+	PauseMs    int          `json:"pause_ms"`   // pause in the middle of the script (the stream must stay attached)
+	Kind       string       `json:"kind"`
 }
 
 func genStdio(o opts) []stdioCase {
@@ -182,7 +182,11 @@ type syncBuf struct {
 
 func (s *syncBuf) Write(p []byte) (int, error) { s.mu.Lock(); defer s.mu.Unlock(); return s.b.Write(p) }
 func (s *syncBuf) Len() int                    { s.mu.Lock(); defer s.mu.Unlock(); return s.b.Len() }
-func (s *syncBuf) Bytes() []byte               { s.mu.Lock(); defer s.mu.Unlock(); return append([]byte{}, s.b.Bytes()...) }
+func (s *syncBuf) Bytes() []byte {
+	s.mu.Lock()
+	defer s.mu.Unlock()
+	return append([]byte{}, s.b.Bytes()...)
+}
 
 func runOneStdio(c stdioCase) (sx.V, sx.V) {
 	var so, se syncBuf
